@@ -83,6 +83,9 @@ tasks:
   p1a: {command: ["echo p1 >> $TRACE"]}
   p1b: {command: ["echo p1 >> $TRACE; exit ${ST_p1:-0}"]}
   p2a: {command: ["echo p2 >> $TRACE; exit ${ST_p2:-0}"]}
+  p3fast: {command: ["echo p3 >> $TRACE; exit ${ST_p3:-0}"]}
+  p3slow: {command: ["sleep 0.4; echo p3 >> $TRACE"]}
+  p3slower: {command: ["sleep 0.7; echo p3 >> $TRACE"]}
 pipelines:
   p1:
     - task: p1a
@@ -90,6 +93,11 @@ pipelines:
       depends_on: [p1a]
   p2:
     - task: p2a
+  p3:
+    - task: p3fast
+    - task: p3slow
+    - task: p3slower
+      depends_on: [p3slow]
 `
 
 func cliTargetsCase(col *Collector, focus string, dir string, targets []string, st map[string]int, form string, extra, gflags, rflags []string) {
@@ -97,7 +105,7 @@ func cliTargetsCase(col *Collector, focus string, dir string, targets []string, 
 	defer os.Remove(trace)
 	env := []string{"TRACE=" + trace}
 	var oks []string
-	for _, n := range []string{"t1", "t2", "t3", "t4", "t5", "t6", "p1", "p2"} {
+	for _, n := range []string{"t1", "t2", "t3", "t4", "t5", "t6", "p1", "p2", "p3"} {
 		env = append(env, fmt.Sprintf("ST_%s=%d", n, st[n]))
 		// t3 allows failure; t4 and t5 allow failure too, but fail in ways allow_failure does not cover
 		// (a failing before hook, a command that overruns the task's timeout)
@@ -175,7 +183,7 @@ func runCliTargets(col *Collector, focus, tier string, rng *rand.Rand) {
 	dir := newScratchDir("c07")
 	defer os.RemoveAll(dir)
 	os.WriteFile(filepath.Join(dir, "c07.yaml"), []byte(c07Config), 0644)
-	names := []string{"t1", "t2", "t3", "t4", "t5", "t6", "p1", "p2"}
+	names := []string{"t1", "t2", "t3", "t4", "t5", "t6", "p1", "p2", "p3"}
 	type job struct {
 		targets []string
 		st      map[string]int
@@ -246,6 +254,11 @@ func runCliTargets(col *Collector, focus, tier string, rng *rand.Rand) {
 		if len(jobs) > 60 {
 			jobs = jobs[:60]
 		}
+	}
+	// a pipeline whose failing stage finishes first while independent stages finish (successfully) later
+	for _, form := range []string{"root", "run"} {
+		fixed = append(fixed, job{[]string{"p3", "t2"}, map[string]int{"t1": 0, "t2": 0, "t3": 0, "t4": 0, "t5": 0, "t6": 0, "p1": 0, "p2": 0, "p3": 6}, form, nil, nil, nil})
+		fixed = append(fixed, job{[]string{"p3", "t2"}, map[string]int{"t1": 0, "t2": 0, "t3": 0, "t4": 0, "t5": 0, "t6": 0, "p1": 0, "p2": 0, "p3": 0}, form, nil, nil, nil})
 	}
 	// the same target named more than once: it runs once per mention, in order
 	// (not adjacent: the trace reader folds adjacent equal marks, which a two-stage pipeline produces; and not
